@@ -1089,6 +1089,39 @@ theorem parseEv_wf (cfg : Cfg) (sockA : Bool) (pairs : List (String × String))
       · exact Or.inl hk
       · exact Or.inr (hk4 hk)
 
+/-- the unicast filter only drops: the filtered event is the unfiltered one or noise -/
+theorem parseEvT_cases (cfg : Cfg) (targetHost : String) (sockA : Bool) (pairs : List (String × String)) :
+    parseEvT cfg targetHost sockA pairs = parseEv cfg sockA pairs ∨ ∃ ts, parseEvT cfg targetHost sockA pairs = .noise ts := by
+  unfold parseEvT
+  cases h : parseEv cfg sockA pairs with
+  | msg m => simp only; split
+             · exact Or.inr ⟨_, rfl⟩
+             · exact Or.inl rfl
+  | purge n => exact Or.inl rfl
+  | noise t => exact Or.inl rfl
+
+/-- a response from the configured target host (and every packet on the advertisement socket, and everything in
+    multicast mode) passes the filter -/
+theorem parseEvT_pass (cfg : Cfg) (targetHost : String) (sockA : Bool) (pairs : List (String × String))
+    (h : sockA = true ∨ targetHost = "" ∨ hget (SMap.writeAll lower [] pairs) "_host" = some targetHost) :
+    parseEvT cfg targetHost sockA pairs = parseEv cfg sockA pairs := by
+  unfold parseEvT
+  cases hp : parseEv cfg sockA pairs with
+  | msg m =>
+    simp only
+    rcases h with h | h | h
+    · simp [h]
+    · simp [h]
+    · simp [h]
+  | purge n => rfl
+  | noise t => rfl
+
+theorem parseEvT_wf (cfg : Cfg) (targetHost : String) (sockA : Bool) (pairs : List (String × String))
+    (h : (parseEv cfg sockA pairs).wf = true) : (parseEvT cfg targetHost sockA pairs).wf = true := by
+  rcases parseEvT_cases cfg targetHost sockA pairs with e | ⟨ts, e⟩
+  · rw [e]; exact h
+  · rw [e]; rfl
+
 /-- what reaches the listener: a decoded packet on the search (`sockA = false`) or advertisement socket, or an explicit
     `purge_devices(now)` call -/
 inductive RawOp
@@ -1114,6 +1147,18 @@ def RawOp.decoded (cfg : Cfg) : RawOp → Prop
 theorem RawOp.ev_wf (cfg : Cfg) (o : RawOp) (h : o.decoded cfg) : (o.ev cfg).wf = true := by
   cases o with
   | pkt sockA pairs => exact parseEv_wf cfg sockA pairs h.1 h.2
+  | purge now => rfl
+  | drop ts => rfl
+
+/-- the event for a raw operation of a listener whose search side has the unicast filter host `tgt` ("" = multicast) -/
+def RawOp.evT (cfg : Cfg) (tgt : String) : RawOp → Ev String
+  | .pkt sockA pairs => parseEvT cfg tgt sockA pairs
+  | .purge now => .purge now
+  | .drop ts => .noise ts
+
+theorem RawOp.evT_wf (cfg : Cfg) (tgt : String) (o : RawOp) (h : o.decoded cfg) : (o.evT cfg tgt).wf = true := by
+  cases o with
+  | pkt sockA pairs => exact parseEvT_wf cfg tgt sockA pairs (parseEv_wf cfg sockA pairs h.1 h.2)
   | purge now => rfl
   | drop ts => rfl
 
